@@ -155,10 +155,8 @@ def r1(repo, run):
                 run.ok('C09.R1', where, desc, '%s: %s' % (kind, why))
             elif fi.qualname in LOOP_TABLE and kind == 'reference-chasing' and not (fi.cls is not None and repo.is_subclass(fi.cls.name, 'ConfigNode')):
                 run.ok('C09.R1', where, desc, 'table: ' + LOOP_TABLE[fi.qualname])
-            elif kind == 'reference-chasing' and ((fi.cls is not None and fi.cls.name == 'XRefNode') or only_reached_from(repo, fi.qualname, {'XRefNode.ayns.on_evaluate_impl'})):
-                n_chase += 1
-                if n_chase == 1:
-                    xref_guard(repo, run)
+            elif (fi.cls is not None and fi.cls.name == 'XRefNode') or only_reached_from(repo, fi.qualname, {'XRefNode.ayns.on_evaluate_impl'}):
+                continue      # the reference chase of XRefNode is decided on its traces (xref_guard below), whatever its loop looks like
             elif kind == 'reference-chasing':
                 n_chase += 1
                 ok, how = cycle_guard(loop)
@@ -168,8 +166,7 @@ def r1(repo, run):
                     run.violation('C09.R1', fi, desc, 'reference-chasing loop (%s) without a cycle guard: %s. A reference cycle (also one that the start node is not part of) never terminates' % (why, how), node=loop)
             else:
                 raise AnalysisError('C09.R1: loop `%s` in %s cannot be classified and is not in the table' % (desc, fi.qualname))
-    if n_chase < 1:
-        raise AnalysisError('C09.R1: the reference-chasing loop of XRefNode.on_evaluate_impl was not found')
+    xref_guard(repo, run)
 
 
 XNI = {'get_node', 'evaluate_node', 'get_str_path'}
